@@ -273,6 +273,18 @@ var Mutations = []Mutation{
 		b.WorkObjectHeader().SetTime(b.Time() + 1000)
 		return true
 	}},
+	{"time-2^63", "C09", true, func(b *types.WorkObject, e *byzEnv) bool {
+		b.WorkObjectHeader().SetTime(1 << 63)
+		return true
+	}},
+	{"time-max-uint64", "C09", true, func(b *types.WorkObject, e *byzEnv) bool {
+		b.WorkObjectHeader().SetTime(^uint64(0) - uint64(e.arg%3))
+		return true
+	}},
+	{"time-2^63-plus-now", "C09", true, func(b *types.WorkObject, e *byzEnv) bool {
+		b.WorkObjectHeader().SetTime(1<<63 + b.Time())
+		return true
+	}},
 	{"efficiency-score+1", "observe", true, func(b *types.WorkObject, e *byzEnv) bool {
 		b.Header().SetEfficiencyScore(b.Header().EfficiencyScore() + 1)
 		return true
